@@ -90,15 +90,32 @@ def run(ctx):
         ctx.tried((n, m, meth, order, kind, tuple(x[:2]), str(sorted(sk))))
         rep = dict(n=n, m=m, method=meth, order=order, kind=kind, x=x.tolist(), x_dtype=str(x.dtype),
                    step_options=str({k: (v if not hasattr(v, 'step_ratio') else '%s(step_ratio=%s)' % (type(v).__name__, v.step_ratio)) for k, v in sk.items()}))
+        # a third of the objects reach (method, order) by attribute assignment after construction with another order (and, for the
+        # real-step methods, another method): the entries must be those of the final configuration
+        reconf = rng.random() < 0.33
+        rep['reconfigured'] = reconf
+
+        def mk(fun, method=None, order=None, full_output=True, **kw):
+            if not reconf:
+                return nd.Jacobian(fun, method=method, order=order, full_output=full_output, **kw)
+            m0 = rng.choice(['central', 'forward', 'backward']) if method in ('central', 'forward', 'backward') else method
+            obj = nd.Jacobian(fun, method=m0, order={2: 4, 4: 2}[order], full_output=full_output, **kw)
+            if rng.random() < 0.5:
+                with warnings.catch_warnings():
+                    warnings.simplefilter('ignore')
+                    obj(x)                      # used once in its first configuration
+            obj.method = method
+            obj.order = order
+            return obj
         try:
             with warnings.catch_warnings():
                 warnings.simplefilter('ignore')
                 if kind == 'affine':
-                    J, info = nd.Jacobian(lambda t: A @ t + b, method=meth, order=order, full_output=True, **sk)(x)
+                    J, info = mk(lambda t: A @ t + b, method=meth, order=order, full_output=True, **sk)(x)
                     exact, tol = A, TOL_AFFINE * (1 + np.abs(A).max())
                 elif kind == 'nonlinear':
                     W = A / 4
-                    J, info = nd.Jacobian(lambda t: np.sin(W @ t) + (W @ t) ** 2, method=meth, order=order, full_output=True, **sk)(x)
+                    J, info = mk(lambda t: np.sin(W @ t) + (W @ t) ** 2, method=meth, order=order, full_output=True, **sk)(x)
                     u = W @ x
                     exact = (np.cos(u) + 2 * u)[:, None] * W
                     tol = None
@@ -106,16 +123,16 @@ def run(ctx):
                     # f(t)[i, l] = sum_j T[i, l, j] t_j (+ a smooth term in half of the cases): shape (m, k); Jacobian [i, j, l] = d f[i, l] / d x_j
                     smooth = it % 2 == 1
                     fm = (lambda t: T @ t + np.sin(T @ t / 16)) if smooth else (lambda t: T @ t)
-                    J, info = nd.Jacobian(fm, method=meth, order=order, full_output=True, **sk)(x)
+                    J, info = mk(fm, method=meth, order=order, full_output=True, **sk)(x)
                     dT = (1 + np.cos(T @ x / 16) / 16)[:, :, None] * T if smooth else T
                     exact = np.transpose(dT, (0, 2, 1))
                     tol = None if smooth else TOL_AFFINE * (1 + np.abs(T).max())
                 elif kind == 'scalar':
-                    J, info = nd.Jacobian(lambda t: np.sum(A[0] * t) + np.prod(np.cos(t / 4)), method=meth, order=order, full_output=True, **sk)(x)
+                    J, info = mk(lambda t: np.sum(A[0] * t) + np.prod(np.cos(t / 4)), method=meth, order=order, full_output=True, **sk)(x)
                     exact = (A[0] - np.prod(np.cos(x / 4)) * np.tan(x / 4) / 4)[None, :]
                     tol = None
                 else:
-                    J, info = nd.Jacobian(lambda t: np.array([np.sum(A[0] * t)]), method=meth, order=order, full_output=True, **sk)(x)
+                    J, info = mk(lambda t: np.array([np.sum(A[0] * t)]), method=meth, order=order, full_output=True, **sk)(x)
                     exact, tol = A[:1], TOL_AFFINE * (1 + np.abs(A).max())
         except Exception as ex:
             ctx.violation('Jacobian raised %r' % ex, **rep)
